@@ -100,3 +100,5 @@ V('C12', 'tuple-id-without-names', 'edb/server/compiler/sertypes.py', 'edb.serve
   '''    type_id = _get_collection_type_id(
         t.get_schema_name(), subtypes, element_names)''', '''    type_id = _get_collection_type_id(
         t.get_schema_name(), subtypes)''', 'C12.R6', '_describe_tuple:list=element_names')
+V('C12', 'lint-castable-args-swapped', 'edb/schema/casts.py', 'edb.schema.casts.is_implicitly_castable',
+  'return get_implicit_cast_distance(schema, source, target) >= 0', 'return get_implicit_cast_distance(schema, target, source) >= 0', 'C12.L', 'slips:argument-alignment')
